@@ -843,7 +843,7 @@ class Address(object):
             raise BKeyError("Please specify data (public key or script) or hashed_data argument")
         if not isinstance(network, Network):
             self.network = Network(network)
-        self.data_bytes = to_bytes(data)
+        self.data_bytes = to_bytes_binary(data)
         self._data = None
         self.script_type = script_type
         self.encoding = encoding
@@ -872,7 +872,7 @@ class Address(object):
                 self.encoding = 'base58'
             else:
                 self.encoding = 'bech32'
-        self.hash_bytes = to_bytes(hashed_data)
+        self.hash_bytes = to_bytes_binary(hashed_data)
         self.prefix = prefix
         self.redeemscript = b''
         if not self.hash_bytes:
